@@ -104,3 +104,63 @@ def rt_tv(ctx, kind, sub, module, cfg, label, n, confirm=True, timeout=600):
             continue
         return validate_runs(ctx, sub, module, cfg, tf, "rt " + label, reps[-1]["runs"], silent=False)
     return False
+
+
+def env_schedules(ctx, sub, module, cfg, limit, timeout=900):
+    """every behaviour of an environment model (<X>Env.tla: what the harness can do to the library, one action per
+    harness step) under cfg, as harness schedules: TLC dumps the transition system, every maximal path is one schedule
+    (its prefixes are judged on the way: the trace has a quiescence record after every step). More than `limit`
+    behaviours: a seeded sample of the complete set."""
+    import random
+    out = ctx.path("env-%s-%s.lts" % (module, cfg.replace(".cfg", "")))
+    import os
+    if not os.path.exists(out):
+        ctx.lts(sub, module, cfg, out, workers=1, timeout=timeout)
+    init, succ = None, {}
+    for line in open(out):
+        e = json.loads(line)
+        d = e["d"]
+        if e["kind"] == "init":
+            init = json.dumps(d["from"], sort_keys=True)
+        else:
+            succ.setdefault(json.dumps(d["from"], sort_keys=True), []).append((d["op"], json.dumps(d["to"], sort_keys=True)))
+    for k in succ:
+        succ[k].sort(key=lambda x: json.dumps(x[0], sort_keys=True))
+    # number of maximal paths below every state (the graph is acyclic: every step increases len)
+    cnt = {}
+    def count(s):
+        if s not in cnt:
+            nx = succ.get(s, [])
+            cnt[s] = 1 if not nx else sum(count(t) for _, t in nx)
+        return cnt[s]
+    total = count(init)
+    def path(idx):      # the idx-th maximal path in lexicographic order
+        s, p = init, []
+        while succ.get(s):
+            for op, to in succ[s]:
+                if idx < cnt[to]:
+                    p.append(op)
+                    s = to
+                    break
+                idx -= cnt[to]
+        return p
+    if total <= limit:
+        picks = range(total)
+    else:
+        picks = sorted(random.Random(ctx.seed).sample(range(total), limit))
+    scheds = [path(i) for i in picks]
+    ctx.extra.setdefault("tlc_schedules", []).append({"model": module, "cfg": cfg, "behaviours": total, "replayed": len(scheds)})
+    ctx.log("env %s/%s: %d behaviours, %d replayed" % (module, cfg, total, len(scheds)))
+    return scheds
+
+
+def env_replay(ctx, sub, envmodule, envcfg, limit, hdrs, test, tracemodule, tracecfg, label, reps=1, perturb=False, sig=None, timeout=3000, extra_args=None, silent=False):
+    """TLC-generated environment schedules (env_schedules) x scenario headers, replayed by a bubble test (VH_SCHED) and
+    judged by the trace spec"""
+    scheds = env_schedules(ctx, sub, envmodule, envcfg, limit)
+    sf = ctx.path("sched-%s-%s.json" % (envmodule, envcfg.replace(".cfg", "")))
+    json.dump([dict(h, steps=s) for s in scheds for h in hdrs], open(sf, "w"))
+    args = {"sched": sf, "reps": reps}
+    args.update(extra_args or {})
+    return bubble_tv(ctx, test, sub, tracemodule, tracecfg, "%s tlc-schedules %s%s" % (label, envcfg.replace(".cfg", ""), " perturbed" if perturb else ""), args,
+                     silent=silent, perturb=perturb, sig=sig, timeout=timeout)
